@@ -1,6 +1,7 @@
 package main
 
 import (
+	"os"
 	"fmt"
 	"go/ast"
 	"go/parser"
@@ -643,8 +644,52 @@ func genSkeleton() string {
 	fmt.Fprintf(&b, "def statementsSeen : Nat := %d\ndef statementsClassified : Nat := %d\n", total.stats.stmts, total.stats.classified)
 	b.WriteString("\n/-- every function of package fstxn that touches the inode lock table or the inode cache: the calls\n    `Lockmap.Acquire`, `Lockmap.Release`, `Icache.LookupSlot` (kind 0), the calls of other functions of this\n    list (kind 1) and anything else done to the two tables (kind 2), in source order -/\n")
 	b.WriteString("def slotUses : List (String × List (Nat × String)) := [\n  " + strings.Join(genSlotUses(), ",\n  ") + "\n]\n")
+	b.WriteString("\n/-- every function of /repo (tests aside) that calls `Flush()` — `obj.Log.Flush`, which flushes up to the\n    log position the journal REMEMBERS (reset by a refused transaction) -/\n")
+	b.WriteString("def flushCallers : List String := [" + strings.Join(genFlushCallers(), ", ") + "]\n")
 	b.WriteString("\nend GoNfsd.Gen.Skeleton\n")
 	return b.String()
+}
+
+// genFlushCallers: "pkg.Func" for every function of the module that calls a method `Flush` without arguments.
+func genFlushCallers() []string {
+	var out []string
+	for _, dir := range []string{"fstxn", "nfs", "kvs", "simple", "shrinker", "alloctxn", "inode", "dir", "cache", "super", "fh"} {
+		ents, err := os.ReadDir(filepath.Join(repo, dir))
+		if err != nil {
+			continue
+		}
+		for _, e := range ents {
+			n := e.Name()
+			if !strings.HasSuffix(n, ".go") || strings.HasSuffix(n, "_test.go") {
+				continue
+			}
+			fset := token.NewFileSet()
+			f, err := parser.ParseFile(fset, filepath.Join(repo, dir, n), nil, 0)
+			if err != nil {
+				fail("flush callers: %v", err)
+			}
+			for _, d := range f.Decls {
+				fd, ok := d.(*ast.FuncDecl)
+				if !ok || fd.Body == nil {
+					continue
+				}
+				calls := false
+				ast.Inspect(fd.Body, func(x ast.Node) bool {
+					if ce, ok := x.(*ast.CallExpr); ok && len(ce.Args) == 0 {
+						if se, ok := ce.Fun.(*ast.SelectorExpr); ok && se.Sel.Name == "Flush" {
+							calls = true
+						}
+					}
+					return true
+				})
+				if calls {
+					out = append(out, q(dir+"."+fd.Name.Name))
+				}
+			}
+		}
+	}
+	sort.Strings(out)
+	return out
 }
 
 // genSlotUses: the order in which the functions of fstxn take the inode lock and fetch the
